@@ -498,7 +498,7 @@ def run(ctx):
     # the world is symmetric in A/B: 6 unordered policy pairs
     cfgs = [(pa, pb) for i, pa in enumerate(POLICIES) for pb in POLICIES[i:]]
     jobs = [(cfg, b) for b in budgets for cfg in cfgs
-            if not (ctx.quick and b[1] and cfg in (("all", "own"), ("own", "solicited")))]  # quick: 4 of the 6 pairs re-entrant
+            if not (ctx.quick and b[1] and cfg in (("all", "own"), ("own", "solicited"), ("all", "solicited")))]  # quick: 3 of the 6 pairs re-entrant
     # policy callbacks that issue requests themselves (mirror / reenable), plain alphabet, 3 (thorough 4) requests
     hooked = [("all+mirror", "all"), ("own+mirror", "solicited"), ("all+mirror", "all+mirror"), ("all+reenable", "all"),
               ("own+reenable", "all+mirror"), ("solicited+mirror", "own+reenable")]
